@@ -12,7 +12,7 @@ func init() { Registry["C20"] = checkC20 }
 // Decided: absence of hidden shared mutable state (R2) — a necessary condition
 // for race freedom of independent objects; thorough adds R4 (input-alias mutation).
 func checkC20(c *Ctx, r *Report) {
-	r.Explanation = "O-APPENDPARAM: no exported library function appends to a slice parameter (with spare capacity the caller's backing array is written behind the slice: key material laid out as iv|key) except the listed append-style API AppendProtectRange. R2 (who-may-write package-level state): every SSA store / map update / copy / delete whose address is rooted at a package-level variable " +
+	r.Explanation = "R2-SHARE: no library function outside init stores a slice, map or pointer loaded from a package-level variable (or a struct copied out of one that holds such references) into an object: objects built from a template or a precomputed table would share one backing array. O-REUSE: no library function re-fills a struct field or a parameter in place with append(x[:0], …) (the storage may be decoder input or shared). O-APPENDPARAM: no exported library function appends to a slice parameter (with spare capacity the caller's backing array is written behind the slice: key material laid out as iv|key) except the listed append-style API AppendProtectRange. R2 (who-may-write package-level state): every SSA store / map update / copy / delete whose address is rooted at a package-level variable " +
 		"(directly, through a pointer/slice/map header loaded from it, or through a parameter that receives such an address) must be in an init function or in the registry mutators " +
 		"mp4.SetBoxDecoder / mp4.RemoveBoxDecoder; no package-level variable of a sync/atomic type. Decides absence of hidden shared mutable state, a necessary condition of C20; " +
 		"R3: exported Decode*/Parse* functions store only into memory they allocated, never through a pointer parameter; R3-RET: no decoder returns its own pointer parameter; L-RANGEVAL: no range value variable (a copy) is assigned a new slice/pointer/struct, so results that are meant to be fresh copies do not silently stay sub-slices of the input; R3-OBS: the ~490 Size/Info/String/Type/Payload/Get*/Is*/Has* methods do not store through their receiver (two accepted, idempotent exceptions), so objects that are only looked at can be shared; O-OWN: elements of a slice held in a struct field are written only by a method of the type, a decoder/constructor named after it, or the function that made the slice (two listed exceptions); O-COPY: a byte-slice field that is grown with append is never assigned a caller's slice directly (except MdatBox.SetData, whose documented contract is to adopt it); R4: no library function calls a storage-sharing method ((*bytes.Buffer).Next/Bytes, (*bufio.Reader).Peek) on the io.Reader it was given, so decoded structures do not alias the caller's input; does not decide races inside the standard library or schedules."
@@ -29,6 +29,12 @@ func checkC20(c *Ctx, r *Report) {
 		r.OK("L-RANGEVAL", "scope", "", fmt.Sprintf("%d range loops with a value variable: none assigns a new slice/pointer/struct to the copy", n))
 	}
 	requireFixture(r, "L-RANGEVAL", "rangeValAssign", func(fc *Ctx, s *Report) { ruleIneffectiveRangeAssign(fc, s, nil) })
+	ruleGlobalShared(c, r, libPrefix, nil)
+	r.OK("R2-SHARE", "scope", "", "no library function outside init stores a reference loaded from a package-level variable into an object (expected count zero; the fixture below keeps the rule alive)")
+	requireFixture(r, "R2-SHARE", "NewSharedHolder", func(fc *Ctx, s *Report) { ruleGlobalShared(fc, s, nil, nil) })
+	ruleReuseFieldStorage(c, r, libPrefix)
+	r.OK("O-REUSE", "scope", "", "no library function re-fills a struct field or a parameter in place with append(x[:0], …) (expected count zero; fixture-backed)")
+	requireFixture(r, "O-REUSE", "uuidHolder.SetUUID", func(fc *Ctx, s *Report) { ruleReuseFieldStorage(fc, s, nil) })
 	if n := ruleAppendToParam(c, r, libPrefix, appendParamAllowed); n < 1 {
 		r.Undecided("O-APPENDPARAM", "scope", "", "no append to a slice parameter of an exported library function found (AppendProtectRange expected)")
 	}
